@@ -7,6 +7,7 @@ from ..pygrammar import combinator_functions
 from ..core import AnalysisError, src, qualname_of
 from ..pysym import SymExec, show, subterms
 from ..rules_pyx import N, C, A
+from .. import logic
 
 EXPLANATION = (
     'Effect, order-dependence and dominance analyses over the call-graph closure of en/ja apply_binary_rules and '
@@ -111,52 +112,61 @@ def r_gate(repo, rep):
         else:
             keys_ok = lambda k: k == ('tuple', (N(x), N(y)))
             keydesc = '(x, y)'
-        entered = skipped = 0
+        # decision function of the gate: for every truth assignment of the elementary tests, the paths that can run
+        # either apply the combinators (open) or return the empty list (closed); open iff `seen is None or key in seen`.
+        paths = []
         seen_elsewhere = []
-        for st, out in SymExec(fn, unroll=1).run():
-            conds = [(e[1], e[2]) for e in st.events if e[0] == 'branch']
-            gate = [(c, p) for c, p in conds if N(seen) in set(subterms(c))]
-            loop = [e for e in st.events if e[0] == 'loop-enter' and e[1] == N('combinators')]
-            skip = [e for e in st.events if e[0] == 'loop-skip' and e[1] == N('combinators')]
-            ok_gate = False
-            if len(gate) == 1:
-                c, p = gate[0]
-                if c[0] == 'bool' and c[1] == 'or' and len(c[2]) == 2:
-                    a, b = c[2]
-                    ok_gate = a == ('cmp', 'is', N(seen), C(None)) and b[0] == 'cmp' and b[1] == 'in' and b[3] == N(seen) and keys_ok(b[2])
-            # seen_rules used anywhere else on the path?
-            for e in st.events:
-                if e[0] == 'branch':
-                    continue
-                for t in (q for q in e[1:-1] if isinstance(q, tuple)):
-                    if N(seen) in set(subterms(t)) and e[0] != 'call':
-                        seen_elsewhere.append(show(t)[:60])
-                    elif e[0] == 'call' and N(seen) in set(subterms(t)) and not any(N(seen) in set(subterms(c)) for c, _ in gate):
-                        seen_elsewhere.append(show(t)[:60])
-            if loop or skip:
-                if loop:
-                    entered += 1
-                    # the gate test is before the loop
-                    gi = [i for i, e in enumerate(st.events) if e[0] == 'branch' and N(seen) in set(subterms(e[1]))]
-                    li = st.events.index(loop[0])
-                    rep.check(ok_gate and gate[0][1] is True and gi and gi[0] < li, 'R14.3', w, rel + ':gate:dominates',
-                              'the combinators run only when seen_rules is None or %s is in it' % keydesc,
-                              'the combinator loop is not dominated by `seen_rules is None or %s in seen_rules` (gate: %s)'
-                              % (keydesc, [show(c)[:100] for c, _ in gate]))
-            else:
-                skipped += 1
-                empty = st.ret is not None and st.ret[0] in ('alloc', 'list') and not [e for e in st.events if e[0] == 'call' and e[1][1][0] == 'attr' and e[1][1][2] == 'append']
-                rep.check(ok_gate and gate[0][1] is False and empty, 'R14.3', w, rel + ':gate:closed',
-                          'a pair outside seen_rules yields the empty list', 'the closed gate returns %s' % (show(st.ret) if st.ret else None))
-        rep.check(not seen_elsewhere, 'R14.3', w, rel + ':gate:only-use', 'seen_rules is used for nothing but the gate',
-                  'seen_rules also flows into %s' % sorted(set(seen_elsewhere)))
-        rep.check(entered >= 1 and skipped >= 1, 'R14.3', w, rel + ':gate:both', 'both gate outcomes exist', 'gate outcomes: open %d, closed %d' % (entered, skipped))
-        # what reaches the combinators
         args_seen = set()
         for st, out in SymExec(fn, unroll=1).run():
+            if out != 'return' or st.ret is None:
+                continue
+            conds = [(c, p_) for c, p_, _ in st.conds]
+            applies = [s_ for e in st.events for t in e[1:-1] if isinstance(t, tuple) for s_ in subterms(t)
+                       if s_[0] == 'call' and s_[1][0] == 'elem' and s_[1][1] == N('combinators')]
+            for c_ in applies:
+                args_seen.add(c_[2])
+            empty = (st.ret[0] == 'alloc' and st.ret[1] == 'list' and not any(
+                e[0] == 'call' and e[1][1][0] == 'attr' and e[1][1][1] == st.ret for e in st.events)) or st.ret == ('list', ())
+            kind = 'open' if applies else ('closed' if empty else 'other:' + show(st.ret)[:80])
+            paths.append((conds, kind))
+            # seen_rules used for anything else than tests on this path?
             for e in st.events:
-                if e[0] == 'call' and e[1][1][0] == 'elem' and e[1][1][1] == N('combinators'):
-                    args_seen.add(e[1][2])
+                if e[0] in ('branch', 'assert'):
+                    continue
+                for t in (q for q in e[1:-1] if isinstance(q, tuple)):
+                    if N(seen) in set(subterms(t)) and not any(t in set(subterms(c)) for c, _ in conds):
+                        seen_elsewhere.append(show(t)[:60])
+        P = ('isnone', N(seen))
+        try:
+            atoms, rows = logic.decision_table(paths)
+        except ValueError as e:
+            raise AnalysisError('%s: apply_binary_rules tests too many conditions (%s)' % (rel, e))
+        q_atoms = [a for a in atoms if a[0] == 'in' and a[2] == N(seen)]
+        good_q = [a for a in q_atoms if keys_ok(a[1])]
+        rep.check(len(q_atoms) == 1 and len(good_q) == 1, 'R14.3', w, rel + ':gate:key',
+                  'seen_rules is consulted with the key %s' % keydesc,
+                  'seen_rules is consulted with %s, expected one test of %s' % ([show(a[1])[:80] for a in q_atoms], keydesc))
+        opened = closed = 0
+        bad = []
+        for sigma, outs in rows:
+            want = 'open' if (sigma.get(P, False) or any(sigma.get(a, False) for a in good_q)) else 'closed'
+            if not sigma.get(P, False) and P not in sigma:
+                want = 'open'           # the function never asks whether seen_rules is None
+            for o in outs:
+                if o == 'open':
+                    opened += 1
+                elif o == 'closed':
+                    closed += 1
+                if o != want:
+                    bad.append('%s when %s' % (o, logic.show_sigma(sigma, show)))
+        rep.check(not bad, 'R14.3', w, rel + ':gate:closed' if any(b.startswith('open') for b in bad) else rel + ':gate:dominates',
+                  'the combinators run exactly when seen_rules is None or %s is in it; otherwise the result is the empty list' % keydesc,
+                  'the outcome is not decided by `seen_rules is None or %s in seen_rules`: %s' % (keydesc, sorted(set(bad))[:4]))
+        rep.check(P in atoms, 'R14.3', w, rel + ':gate:none-test', 'an absent seen_rules (None) is tested for', 'no path tests `seen_rules is None`')
+        rep.check(not seen_elsewhere, 'R14.3', w, rel + ':gate:only-use', 'seen_rules is used for nothing but the gate',
+                  'seen_rules also flows into %s' % sorted(set(seen_elsewhere)))
+        rep.check(opened >= 1 and closed >= 1, 'R14.3', w, rel + ':gate:both', 'both gate outcomes exist', 'gate outcomes: open %d, closed %d' % (opened, closed))
+        # what reaches the combinators
         if lang == 'en':
             ok = bool(args_seen) and all(len(a) == 2 and all(
                 q[0] == 'call' and q[1] == A(N(v), 'clear_features') and C('nb') in q[2] and all(z in (C('nb'),) for z in q[2])
@@ -176,36 +186,44 @@ def r_unary(repo, rep, R='R14.5'):
         x, table = [a.arg for a in fn.args.args][:2]
         w = '%s:%s apply_unary_rules' % (rel, fn.lineno)
         unknown = known = 0
-        body_paths = 0
+        IN = ('in', N(x), N(table))
+        targets = ('sub', N(table), N(x))
         for st, out in SymExec(fn, unroll=1).run():
-            conds = [(e[1], e[2]) for e in st.events if e[0] == 'branch']
-            absent = (('cmp', 'not in', N(x), N(table)), True) in conds or (('cmp', 'in', N(x), N(table)), False) in conds
-            apps = [e[1] for e in st.events if e[0] == 'call' and e[1][1][0] == 'attr' and e[1][1][2] == 'append']
+            if out != 'return' or st.ret is None:
+                if out != 'raise':
+                    rep.violation(R, w, rel + ':unary:returns', 'a path through apply_unary_rules returns nothing')
+                continue
+            conds = [(c, p_) for c, p_, _ in st.conds]
+            absent = logic.excluded(conds, ('atom', IN))
+            present = logic.implied(conds, ('atom', IN))
+            r = st.ret
             if absent:
                 unknown += 1
-                rep.check(out == 'return' and st.ret is not None and st.ret[0] in ('list', 'alloc') and not apps and
-                          (st.ret[0] != 'list' or not st.ret[1]), R, w, rel + ':unary:unknown',
-                          'a category without entry yields the empty list', 'a category without entry yields %s' % (show(st.ret) if st.ret else None))
-                continue
-            enter = [e for e in st.events if e[0] == 'loop-enter']
-            if not enter:
+                empty = (r[0] == 'alloc' and r[1] == 'list' and not any(e[0] == 'call' and e[1][1][0] == 'attr' and e[1][1][1] == r for e in st.events)) \
+                    or r == ('list', ())
+                rep.check(empty, R, w, rel + ':unary:unknown',
+                          'a category without entry yields the empty list', 'a category without entry yields %s' % show(r))
                 continue
             known += 1
-            it = enter[0][1]
-            elem = ('elem', it, enter[0][2].lineno)
-            ok = it == ('sub', N(table), N(x)) and len(apps) == 1 and apps[0][2] and apps[0][2][0][0] == 'call' \
-                and apps[0][2][0][1] == N('CombinatorResult') and dict(apps[0][2][0][3]).get('cat', (apps[0][2][0][2] or (None,))[0]) == elem \
-                and st.ret == apps[0][1][1]
-            extra = [c for c, p in conds if elem in set(subterms(c)) and not (c[0] == 'cmp')]
+            rep.check(present, R, w, rel + ':unary:guarded', 'the table is read only after `x in unary_rules` held',
+                      'a path reads the table without having tested `%s in %s`' % (x, table))
+            ok = False
+            detail = show(r)[:120]
+            if r[0] == 'listcomp' and len(r[2]) == 1:
+                it, filt = r[2][0]
+                elt = r[1]
+                is_elem = lambda t: t[0] == 'elem' and t[1] == it
+                cat = None
+                if elt[0] == 'call' and elt[1] == N('CombinatorResult'):
+                    cat = dict(elt[3]).get('cat', (elt[2] or (None,))[0])
+                ok = it == targets and not filt and cat is not None and is_elem(cat)
+                if it != targets:
+                    detail = 'iterates %s' % show(it)[:80]
+                elif filt:
+                    detail = 'filters the targets by %s' % [show(c)[:60] for c in filt]
             rep.check(ok, R, w, rel + ':unary:one-per-target',
                       'every configured target of x yields exactly one result carrying that target, in table order',
-                      'the loop over %s appends %s' % (show(it), [show(a[2][0])[:60] for a in apps]))
-        loops = [n for n in ast.walk(fn) if isinstance(n, ast.For)]
-        ctl = [type(n).__name__ for l in loops for n in ast.walk(l) if isinstance(n, (ast.Continue, ast.Break, ast.Return))]
-        srt = [src(n)[:40] for n in ast.walk(fn) if isinstance(n, ast.Call) and src(n.func) in ('sorted', 'reversed', 'set') or
-               (isinstance(n, ast.Call) and isinstance(n.func, ast.Attribute) and n.func.attr in ('sort', 'reverse'))]
-        rep.check(not ctl and not srt and len(loops) == 1, R, w, rel + ':unary:no-filter', 'no target is skipped, reordered or deduplicated',
-                  'the target loop contains %s %s' % (ctl, srt))
+                      'the result for a known category is not one CombinatorResult per entry of %s[%s]: %s' % (table, x, detail))
         rep.check(unknown >= 1 and known >= 1, R, w, rel + ':unary:both', 'both lookup outcomes exist', 'lookup outcomes: unknown %d, known %d' % (unknown, known))
 
 
